@@ -1,6 +1,7 @@
 package vc
 
 import (
+	"os"
 	"go/token"
 	"fmt"
 	"go/types"
@@ -64,7 +65,7 @@ func verifyFuncMode(p *Program, fc *FuncContract, prop string, unroll int) (u *U
 		return u
 	}
 	x := NewExec(p, w, prop+"/"+fc.Key())
-	x.safety = !fc.Flags["nosafety"]
+	x.safety = !fc.Flags["nosafety"] || os.Getenv("GOCV_FORCE_SAFETY") != ""
 	x.unroll = unroll
 	u.Safety = x.safety
 	defer func() {
